@@ -81,6 +81,8 @@ func sortStrings(s []string) {
 	}
 }
 
+var frameLineN int
+
 func frameLine(ver, role string, pend bool, raw []byte) string {
 	var v interface{}
 	tok := " X"
@@ -97,6 +99,12 @@ func frameLine(ver, role string, pend bool, raw []byte) string {
 	p := "0"
 	if pend {
 		p = "1"
+	}
+	// every fourth frame: an invalid-message hook is installed that returns a fresh error (same code and description, no
+	// message id): the endpoint must still address its CALL_ERROR to the frame's id
+	frameLineN++
+	if frameLineN%4 == 0 {
+		p += "h"
 	}
 	return fmt.Sprintf("f %s %s %s h%s |%s", ver, role, p, hex.EncodeToString(raw), tok)
 }
@@ -167,7 +175,8 @@ func c06Frame(f []string) string {
 	if len(f) < 5 || f[0] != "f" {
 		return "bad-op"
 	}
-	ver, role, pend := f[1], f[2], f[3] == "1"
+	ver, role, pend := f[1], f[2], strings.HasPrefix(f[3], "1")
+	hook := strings.HasSuffix(f[3], "h")
 	raw, _ := hex.DecodeString(strings.TrimPrefix(f[4], "h"))
 	var lg []string
 	note := func(s string) { lg = append(lg, s) }
@@ -201,6 +210,11 @@ func c06Frame(f []string) string {
 		c.SetRequestHandler(func(r ocpp.Request, id, action string) { note("call:" + id + ":" + action) })
 		c.SetResponseHandler(func(r ocpp.Response, id string) { note("result:" + id) })
 		c.SetErrorHandler(func(e *ocpp.Error, det interface{}) { note("error:" + e.MessageId) })
+		if hook {
+			c.SetInvalidMessageHook(func(err *ocpp.Error, rawMessage string, parsedFields []interface{}) *ocpp.Error {
+				return ocpp.NewError(err.Code, err.Description, "")
+			})
+		}
 		_ = c.Start("ws://fake")
 		deliver = fc.deliver
 		takeWrites = fc.takeWrites
@@ -218,6 +232,11 @@ func c06Frame(f []string) string {
 		s.SetRequestHandler(func(ch ws.Channel, r ocpp.Request, id, action string) { note("call:" + id + ":" + action) })
 		s.SetResponseHandler(func(ch ws.Channel, r ocpp.Response, id string) { note("result:" + id) })
 		s.SetErrorHandler(func(ch ws.Channel, e *ocpp.Error, det interface{}) { note("error:" + e.MessageId) })
+		if hook {
+			s.SetInvalidMessageHook(func(ch ws.Channel, err *ocpp.Error, rawJson string, parsedFields []interface{}) *ocpp.Error {
+				return ocpp.NewError(err.Code, err.Description, "")
+			})
+		}
 		go s.Start(0, "/")
 		waitRunning(d)
 		fs.connect("c1")
